@@ -200,6 +200,17 @@ def sweep(run, pid):
                     run.sample(dict(query=text, real=len(res["real"]) if res["real"] is not None else None,
                                     oracle=len(res["oracle"]) if res["oracle"] is not None else None,
                                     atoms=res["info"].get("atoms")))
+            # --- the same kind named twice under two aliases: no WHERE (full square) and a condition on the
+            #     last alias (the engine binds one alias per kind); every combination exactly once
+            for k in kinds[:2]:
+                if len(proj.by_kind.get(k, [])) ** 2 > E.MAX_TUPLES:
+                    continue
+                for cond in (None, QG.accessor_atom(rng, "b", k, proj.values)):
+                    q = make_query([(k, "a"), (k, "b")], cond, "b")
+                    text = QG.plain(q)
+                    res = E.engine_case(proj, d, text, q)
+                    run.count(("same-kind-twice", k, text))
+                    judge(run, pid, proj, text, q, res, stats, mism)
             # --- literals containing keywords, negation of a single comparison, no WHERE
             for (k, nodes) in list(proj.by_kind.items())[:6]:
                 if k not in QG.STRING_ACC:
